@@ -217,7 +217,7 @@ def replay_behaviours(res, tier, seed, wd):
         raise ToolError("behaviour set is missing required histories: helper=%d clone-drop-then-emit=%d panic-with-stop-pending=%d flush/stats-delegation=%d" % (
             helper, quiet_then_emit, panic_pending_stop, delegate))
     trA = os.path.join(wd, "trace-qreplay.ndjson")
-    s, _ = cvh(["queue-replay", "--in", beh, "--out", trA, "--maxdiv", 4 if tier == "quick" else 30], timeout=3000)
+    s, _ = cvh(["queue-replay", "--in", beh, "--out", trA, "--maxdiv", 4 if tier == "quick" else 30], timeout=600 if tier == "quick" else 3000)
     log("[A] %d TLC behaviours (%d steps) replayed on the real sink under the cooperative scheduler: %d model divergences "
         "(full-queue last drop: %d, drop of a clone then emit on survivor: %d, panic while stop pending: %d)" % (
             s["behaviours"], s["steps"], s["model_divergences"], helper, quiet_then_emit, panic_pending_stop))
